@@ -3,6 +3,7 @@
 package main
 
 import (
+	"bytes"
 	"context"
 	"crypto/sha256"
 	"errors"
@@ -413,14 +414,26 @@ func runTxFlow(c *Case) ([]Obs, any) {
 				if !ok {
 					panic(harnessErr("undeclared tx"))
 				}
+				// optional 3rd argument 1: the peer wraps the tx in an extended message (extmsg), as it must for very
+				// large payloads and may for any
+				var msg wire.Message = tx
+				cmd := wire.CmdTx
+				if len(op.Args) > 2 && op.Int(2) != 0 {
+					var buf bytes.Buffer
+					if err := tx.BtcEncode(&buf, 0); err != nil {
+						panic(harnessErr("encode tx: " + err.Error()))
+					}
+					msg = &wire.MsgExtended{ExtCommand: wire.CmdTx, Length: uint64(buf.Len()), Payload: buf.Bytes()}
+					cmd = wire.CmdExtended
+				}
 				switch op.Int(1) {
 				case 0:
-					if _, err := f.node.VerifHandlers()[wire.CmdTx].Handle(ctx, tx); err != nil {
+					if _, err := f.node.VerifHandlers()[cmd].Handle(ctx, msg); err != nil {
 						return Obs{ERR}
 					}
 				case 1:
 					f.ustate.SetVerified()
-					if _, err := f.untrust[wire.CmdTx].Handle(ctx, tx); err != nil {
+					if _, err := f.untrust[cmd].Handle(ctx, msg); err != nil {
 						return Obs{ERR}
 					}
 				default:
